@@ -4631,6 +4631,26 @@ func extraC17SizeCheckUnconditional(c *Ctx, r *Report) {
 			}
 			// a return that refuses for another reason (the header-size test merged into the same function hands back a
 			// reason string / an error) is not an accepting return
+			for _, res := range ret.Results {
+				if !isNamed(res.Type(), "internal/core/ports", "SecurityResult") {
+					continue
+				}
+				if ld, ok := res.(*ssa.UnOp); ok {
+					if al, ok := ld.X.(*ssa.Alloc); ok {
+						for _, ref := range *al.Referrers() {
+							if fa, ok := ref.(*ssa.FieldAddr); ok && isField(fa, "internal/core/ports", "SecurityResult", "Allowed") {
+								for _, r2 := range *fa.Referrers() {
+									if st, ok := r2.(*ssa.Store); ok {
+										if k, ok := st.Val.(*ssa.Const); ok && k.Value != nil && k.Value.String() == "false" {
+											return // refuses
+										}
+									}
+								}
+							}
+						}
+					}
+				}
+			}
 			if len(ret.Results) > 0 {
 				last := ret.Results[len(ret.Results)-1]
 				switch t := last.Type().Underlying().(type) {
@@ -7397,7 +7417,21 @@ func extraC17AllowAfterBodyCheck(c *Ctx, r *Report) {
 		}
 	}
 	if n == 0 {
-		r.Undecided("C17-R11", "allowing-returns", token.NoPos, "no function that calls the body-size check and answers Allowed: true found")
+		// the comparison may be made in the validator itself (the check helper inlined): its accepting returns are then
+		// exactly the ones C17-R10 examines
+		inline := false
+		for f := range checks {
+			res := f.Signature.Results()
+			for i := 0; i < res.Len(); i++ {
+				if isNamed(res.At(i).Type(), "internal/core/ports", "SecurityResult") {
+					inline = true
+					r.Triv("C17-R11", fname(f)+":check-inline", f.Pos(), "the size comparison is made in the validator itself; its accepting returns are decided by C17-R10")
+				}
+			}
+		}
+		if !inline {
+			r.Undecided("C17-R11", "allowing-returns", token.NoPos, "no function that calls the body-size check and answers Allowed: true found")
+		}
 	}
 	addMutants(Mutant{Prop: "C17", Name: "limits-off-fast-path-uses-or", File: "internal/adapter/security/request_size_limit.go", Rule: "C17-R11",
 		Old: "	if err := sv.validateHeaderSize(req); err != nil {", New: "	if sv.maxHeaderSize <= 0 || sv.maxBodySize <= 0 {\n		return ports.SecurityResult{Allowed: true}, nil\n	}\n	if err := sv.validateHeaderSize(req); err != nil {"})
@@ -12791,6 +12825,13 @@ func extraC15ForwardedFillInsReached(c *Ctx, r *Report) {
 				}
 				if lk, ok := in.(*ssa.Lookup); ok {
 					if s, isK := constString(lk.Index); isK && strings.EqualFold(s, hdr) {
+						return true
+					}
+				}
+				// the host header is also dealt with by finding that there is no host to forward (`Host != "" && Get(…) == ""`
+				// does not consult the header when Host is empty)
+				if bo, ok := in.(*ssa.BinOp); ok && hdr == "X-Forwarded-Host" && (bo.Op == token.EQL || bo.Op == token.NEQ) {
+					if s, isK := constString(bo.Y); isK && s == "" && mentionsField(bo.X, "net/http", "Request", "Host", 2) {
 						return true
 					}
 				}
